@@ -136,6 +136,7 @@ def c18_shards(tier, seed, search=False):
 
 PROPS["C18"] = dict(
     shards=c18_shards,
+    diverge=lambda l: l.startswith("DIVERGE base64"),
     trusted=BASE_TRUST + ["encoding/base64 and encoding/json at every hop; utf8.Valid and bytes.TrimSpace (Go standard library) define 'valid UTF-8' and 'whitespace' for the CLI policy"],
     assumptions=["standard input is a pipe or a file (the interactive terminal prompt is not covered)"],
     rule=("(i) the built setec binary run against a local server: value classes {empty, clean text, leading/trailing ASCII and Unicode space, space only, invalid UTF-8 with space, NUL, "
